@@ -60,7 +60,7 @@ def url_suite(ctx, res):
 
 
 def run(ctx):
-    res = c08.run_suite(ctx, 'C09', ('c09',), 350, 3000)
+    res = c08.run_suite(ctx, 'C09', ('c09',), 350, 40000)
     url_suite(ctx, res)
     return res
 
